@@ -1,9 +1,9 @@
-(* Obligation C20/normal_pdf_vanishes_at_infinity.  Statement as printed by Coq from Inferno.C20.DistProofs; proof by reference.
+(* Obligation C20/normal_pdf_vanishes_at_infinity.  Statement as printed by Coq from Inferno.C20.DistNormal; proof by reference.
    This file contains nothing else, so the statement cannot be weakened quietly. *)
 From Coq Require Import Reals List ZArith Bool.
 From Coquelicot Require Import Coquelicot.
 From Flocq Require Import Core.Raux.
-From Inferno Require Import Base.Num Base.NumR C20.Model C20.Spec C20.DistProofs.
+From Inferno Require Import Base.Num Base.NumR Gen.Distributions C20.Model C20.Spec C20.DistNormal.
 Import ListNotations.
 Open Scope R_scope.
 Theorem normal_pdf_vanishes_at_infinity : forall (tau : R) (loc : T RN) (scale : R),
@@ -13,5 +13,5 @@ Theorem normal_pdf_vanishes_at_infinity : forall (tau : R) (loc : T RN) (scale :
   x = p_infty \/ x = m_infty ->
   is_lim (fun y : R => normal_pdf RN tau y loc scale) x 0 /\
   is_lim (fun y : R => (y - loc) * normal_pdf RN tau y loc scale) x 0.
-Proof. exact (@Inferno.C20.DistProofs.normal_pdf_vanishes_at_infinity). Qed.
+Proof. exact (@Inferno.C20.DistNormal.normal_pdf_vanishes_at_infinity). Qed.
 Print Assumptions normal_pdf_vanishes_at_infinity.
